@@ -2212,6 +2212,18 @@ impl StorageEngine {
         Ok(false)
     }
 
+    /// Record a change to a key's value that was made outside the engine, so that a WATCH on the
+    /// key sees it like any other write (the consumer groups of a stream live behind an Arc and
+    /// are changed by the command handlers through a copy of the stream handle)
+    pub fn mark_key_modified(&self, db: DatabaseIndex, key: &[u8]) -> Result<()> {
+        let shard = self.get_shard(db, key)?;
+        let shard_guard = shard.read().unwrap();
+        
+        shard_guard.mark_modified(key);
+        
+        Ok(())
+    }
+    
     /// Register a WATCH on a specific key and return baseline counter
     pub fn register_watch(&self, db: DatabaseIndex, key: &[u8]) -> Result<u64> {
         let shard = self.get_shard(db, key)?;
